@@ -141,6 +141,9 @@ impl Sys {
                             }
                             st = St::Disc(r);
                             self.sconn[id] = Some(st);
+                        } else if let Cause::Exact(r) = server_cause[id] {
+                            // an explicit disconnect call addressed at a healthy connection disconnects it
+                            return Err(Fail::new("disconnect_call_ignored", format!("{op:?}: server-side connection {id} is still healthy after a call that disconnects it ({r:?})")));
                         }
                     }
                     self.check_conn(&format!("{op:?}: server-side connection {id}"), c, st)?;
@@ -156,6 +159,8 @@ impl Sys {
                             ));
                         }
                         p.st = St::Disc(r);
+                    } else if let Cause::Exact(r) = peer_cause[id] {
+                        return Err(Fail::new("disconnect_call_ignored", format!("{op:?}: client object {id} is still healthy after a call that disconnects it ({r:?})")));
                     }
                 }
             }
